@@ -271,6 +271,12 @@ func genModel(r *common.Rng, size int) *model {
 		if i%2 == 0 {
 			s.Attrs = append(s.Attrs, kv{"groupby", m.Group})
 		}
+		// different attribute sets per sequence endpoint (the diagram title refers to them)
+		for _, k := range []string{"owner", "Zone", "tier", "cost"} {
+			if r.Bool() {
+				s.Attrs = append(s.Attrs, kv{k, valPool[r.Intn(len(valPool))]})
+			}
+		}
 		a := m.Apps[r.Intn((len(m.Apps)+1)/2)]
 		s.Calls = append(s.Calls, [2]string{a.Name, a.Eps[r.Intn(len(a.Eps))].Name})
 		if r.Bool() {
@@ -392,7 +398,7 @@ func (m *model) render() string {
 		}
 	}
 	w(0, "")
-	w(0, "%s:", m.SeqProj)
+	w(0, "%s [note=\"sequences\"]:", m.SeqProj) // an attribute, so that the app's Attrs map exists
 	for _, s := range m.Seqs {
 		w(1, "%s%s:", s.Name, renderAttrs(s.Attrs))
 		for _, c := range s.Calls {
